@@ -120,6 +120,8 @@ def lazy_routing(prog, rep):
 def run(prog, rep):
     C02.lazy_phases(prog, rep)
     lazy_routing(prog, rep)
+    from ..engines import e5_writers as _e5
+    _e5.no_dropped_elements(prog, rep)
     # the context handed from stanza to stanza is read-only: no memo/cache can carry facts of one stanza into the check of another
     from ..lib import typewalk
     rep.rule("C06.C", "tsg::checker::CheckContext holds no interior mutability (every stanza is checked against the file, never against what earlier stanzas left behind)")
